@@ -135,6 +135,19 @@ class Engine(Interp, InterpExpr, InterpComp, InterpStmt, InterpCall, InterpBuilt
         """contents_where(lambda r: <Bool over an object/collection value r of class/kind K>, K)"""
         return ('pred', args[0], args[1] if len(args) > 1 else None)
 
+    def bi_unchanged(self, args, kw, line):
+        """unchanged(): no heap location that existed on entry of the function under proof has a different content now.
+        Decided from the write log of this path: every modular call made so far had an empty modifies list (anything
+        else counts as a change) and every direct store hit an object allocated by the call or restored the value."""
+        for _, _, allowed in self.heap.epochs[len(self.old_heap.epochs):]:
+            if getattr(allowed, 'items', None) != []:
+                return False
+        claims = []
+        for name in sorted(self.heap.log):
+            if name != 'alloc':
+                claims.extend(frame_claims(self, name, None))
+        return self.bool_value(self.conj(claims)) if claims else True
+
     def eval_modifies(self, con, bindings):
         if con.modifies is None:
             return None
@@ -155,7 +168,9 @@ class Engine(Interp, InterpExpr, InterpComp, InterpStmt, InterpCall, InterpBuilt
     def allowed_fn(self, items):
         """modifies items -> allowed(array name) -> None | 'all' | Allowed(refs, preds) (callable on a ref term)"""
         if items is None:
-            return lambda name: 'all'
+            f = lambda name: 'all'
+            f.items = None
+            return f
 
         def allowed(name):
             if name == 'alloc':
@@ -173,6 +188,7 @@ class Engine(Interp, InterpExpr, InterpComp, InterpStmt, InterpCall, InterpBuilt
             if not refs and not preds:
                 return None
             return Allowed(refs, preds)
+        allowed.items = list(items)
         return allowed
 
     # ------------------------------------------------------------------ modular calls
@@ -257,7 +273,17 @@ class Engine(Interp, InterpExpr, InterpComp, InterpStmt, InterpCall, InterpBuilt
                         self.run.assume(self.eval_clause(cl, con.module, bindings))
                     raise PyRaise(ev, line)
         rty = self.ts.ann_to_type(ast.parse(con.returns, mode='eval').body, 'ttypes') if con.returns else NONE
-        result = self.fresh_value('ext_' + con.target.split('.')[-1], rty)
+        if con.attrs.get('functional'):
+            # deterministic function of its (scalar) arguments: the result is an uninterpreted function application, so
+            # two calls with equal arguments agree (also between the code and a specification)
+            ts_ = [self.lift(a) for a in args]
+            f = z3.Function('fn:' + con.target, *[t.sort() for t in ts_], sort_of(rty))
+            result = self.assume_domain(self.wrap(f(*ts_), rty))
+            for x in (result if isinstance(result, tuple) else (result,)):
+                if isinstance(x, SV) and x.ty == STR:
+                    self.run.assume(x.t != STR_NONE, silent=True)
+        else:
+            result = self.fresh_value('ext_' + con.target.split('.')[-1], rty)
         bindings['result'] = result
         if con.target == 'time.monotonic':
             self.run.assume(result.t >= self.clock)
@@ -471,7 +497,16 @@ def verify_lemma(world, modname, node, kw, budget=None):
 
 def _bindings(eng, fi, con, variant):
     ptypes = eng.ts.param_types(fi)
-    for k, v in con.types.items():
+    types = dict(con.types)
+    if variant and '#' in variant:
+        variant, tv = variant.split('#', 1)
+        variant = variant or None
+        types.update(con.type_variants[int(tv.split(':')[0])])
+    consts = {}
+    for k, v in types.items():
+        if v.startswith('class:'):
+            consts[k] = ClassV(v[6:])
+            continue
         ptypes[k] = eng.ts.ann_to_type(ast.parse(v, mode='eval').body, fi.module, fi.cls)
     vars_ = {}
     for a in fi.node.args.posonlyargs + fi.node.args.args + fi.node.args.kwonlyargs:
@@ -484,6 +519,8 @@ def _bindings(eng, fi, con, variant):
                 eng.exact_refs.add(obj.ref.get_id())
                 eng.run.assume(class_of(obj.ref) == eng.ts.class_id(cls), silent=True)
             vars_[n] = obj
+        elif n in consts:
+            vars_[n] = consts[n]
         else:
             vars_[n] = eng.make_symbolic(n, ptypes[n])
     return vars_
@@ -544,44 +581,51 @@ def _run_path(eng, world, con, fi, variant, res, runner):
     # frame: every write since entry is justified by the modifies clause (or hits an object allocated by the call)
     if mods is not None:
         allowed = eng.allowed_fn(mods)
-        alloc0 = eng.old_heap.get('alloc', arr(Ref, B))
         for name in sorted(eng.heap.log):
             if name == 'alloc':
                 continue
             a = allowed(name)
             if a == 'all':
                 continue
-            new, old = eng.heap.get(name), eng.old_heap.get(name)
-            events = eng.heap.log[name]
-            claims = []
-            general = False
-            seen = set()
-            for evn in events:
-                if evn[0] == 'store':
-                    w = evn[1]
+            claims = frame_claims(eng, name, a)
+            if claims:
+                runner.oblige(f'frame:{name}/{eng.cur_fn}', 'frame', z3.And(claims) if len(claims) > 1 else claims[0],
+                              0, model_probe=_probe(eng, bindings))
+
+
+def frame_claims(eng, name, a):
+    """claims stating that the writes logged for heap array `name` since entry stay inside `a` (None: nothing allowed)
+    or hit objects allocated since entry"""
+    alloc0 = eng.old_heap.get('alloc', arr(Ref, B))
+    new, old = eng.heap.get(name), eng.old_heap.get(name)
+    events = eng.heap.log[name]
+    claims = []
+    general = False
+    seen = set()
+    for evn in events:
+        if evn[0] == 'store':
+            w = evn[1]
+            if w.get_id() in seen:
+                continue
+            seen.add(w.get_id())
+            claims.append(z3.Or(z3.Not(alloc0[w]), a(w) if a is not None else z3.BoolVal(False), new[w] == old[w]))
+        elif evn[0] == 'havoc':
+            ca = evn[1]
+            if ca == 'all' or ca.preds:
+                general = True
+            else:
+                for w in ca.refs:
                     if w.get_id() in seen:
                         continue
                     seen.add(w.get_id())
                     claims.append(z3.Or(z3.Not(alloc0[w]), a(w) if a is not None else z3.BoolVal(False), new[w] == old[w]))
-                elif evn[0] == 'havoc':
-                    ca = evn[1]
-                    if ca == 'all' or ca.preds:
-                        general = True
-                    else:
-                        for w in ca.refs:
-                            if w.get_id() in seen:
-                                continue
-                            seen.add(w.get_id())
-                            claims.append(z3.Or(z3.Not(alloc0[w]), a(w) if a is not None else z3.BoolVal(False), new[w] == old[w]))
-                else:
-                    general = True
-            if general:
-                r = z3.Const('r!fr', Ref)
-                cond = alloc0[r] if a is None else z3.And(alloc0[r], z3.Not(a(r)))
-                claims = [z3.ForAll([r], z3.Implies(cond, new[r] == old[r]))]
-            if claims:
-                runner.oblige(f'frame:{name}/{eng.cur_fn}', 'frame', z3.And(claims) if len(claims) > 1 else claims[0],
-                              0, model_probe=_probe(eng, bindings))
+        else:
+            general = True
+    if general:
+        r = z3.Const('r!fr', Ref)
+        cond = alloc0[r] if a is None else z3.And(alloc0[r], z3.Not(a(r)))
+        claims = [z3.ForAll([r], z3.Implies(cond, new[r] == old[r]))]
+    return claims
 
 
 def _probe(eng, bindings):
